@@ -31,6 +31,8 @@ inductive Term where
   | raw (b : Bytes)
   | errPage (status : Nat)
   | layer (c : Coding) (t : Term)
+  | cut (c : Coding) (t : Term)   -- a stream of coding `c` over `t` that was started and never
+                                  -- terminated: buffered data and trailer missing, not decodable
 deriving Repr, DecidableEq
 
 /-! ### request side -/
@@ -150,13 +152,16 @@ deriving Repr, DecidableEq
 
 /-- what the next handler does: the header fields it sets first, the body it writes (already
 in its physical, possibly pre-encoded form; `plen` = its length in bytes), its calls on the
-ResponseWriter, and what it returns -/
+ResponseWriter, and what it returns: a status and an error (`err` = the error is non-nil; a
+handler may return one next to a status below 400 after its whole body is out -- fastcgi does
+when the backend wrote to stderr -- it is meant for the log) -/
 structure Inner where
   hdr  : Hdr
   body : Term
   plen : Nat
   ops  : List Op
   ret  : Nat
+  err  : Bool := false
 deriving Repr, DecidableEq
 
 /-- the underlying ResponseWriter (what the client gets) -/
@@ -237,6 +242,26 @@ def plainRun (i : Inner) : Resp :=
   if u.wrote then finish u i.hdr i.body (some i.plen) i.ret
   else finish u i.hdr (.raw []) (some 0) i.ret
 
+/-- the `gzip.Writer` of one response (`gzipResponseWriter.internalWriter`): set up, and open,
+once the decision is "compress"; `Close` writes out the deflate data still buffered (for a small
+body: everything but the 10-byte member header) and the CRC/size trailer -/
+inductive GzW where
+  | absent | opened | closed
+deriving Repr, DecidableEq
+
+/-- the deferred cleanup of `Gzip.ServeHTTP`: `putWriter` closes the writer if one was set up.
+It runs on every return path and looks neither at the status nor at the error the next handler
+returned. -/
+def cleanup (_ret : Nat) (_err : Bool) : GzW → GzW
+  | .opened => .closed
+  | s => s
+
+/-- what is on the wire of a body `t` that went through the writer -/
+def streamBody : GzW → Term → Term
+  | .closed, t => .layer .gzip t
+  | .opened, t => .cut .gzip t
+  | .absent, t => t
+
 /-- `Gzip.ServeHTTP` around `i` for a request to `path` with Accept-Encoding `ae` -/
 def gzipRun (blocks : List Block) (path ae : Bytes) (i : Inner) : Resp :=
   if !acceptsGzip ae then plainRun i
@@ -247,9 +272,11 @@ def gzipRun (blocks : List Block) (path ae : Bytes) (i : Inner) : Resp :=
       let w := i.ops.foldl (wStep b) { live := i.hdr, decided := none, under := { committed := none, wrote := false } }
       let inner := if w.under.wrote then i.body else .raw []
       let ilen := if w.under.wrote then i.plen else 0
-      -- putWriter closes the gzip stream iff the compressing writer was set up
-      if w.decided = some true then finish w.under w.live (.layer .gzip inner) none i.ret
-      else finish w.under w.live inner (some ilen) i.ret
+      -- the compressing writer is set up iff the decision was "compress"; the next handler
+      -- returns (i.ret, i.err); then the deferred cleanup runs
+      let gzw := cleanup i.ret i.err (if w.decided = some true then .opened else .absent)
+      if gzw = .absent then finish w.under w.live inner (some ilen) i.ret
+      else finish w.under w.live (streamBody gzw inner) none i.ret
 
 /-! ### what net/http puts on the wire (trusted, as documented)
 
